@@ -148,18 +148,21 @@ class ImplRunner:
         spec = specs.params_to_spec(ps)
         form = ps.get("form") or "obj"
         mspec = {k: v for k, v in spec.items() if k not in ("fill", "ha", "life")}
+        ha = bool(spec.get("ha"))   # a member-level candlestick type (inside a Hexital the manager it is attached to decides)
         if form == "dict":
             d = specs.as_config_dict(mspec, with_manager=False)
             if mspec.get("tf"):
                 d["timeframe"] = mspec["tf"]
+            if ha:
+                d["candlestick_type"] = "HA"
             return d
         kw = {}
-        ind = specs.build_indicator({**mspec, "tf": None}, [], with_manager=False) if not mspec.get("tf") else None
+        ind = specs.build_indicator({**mspec, "tf": None}, [], with_manager=False) if not (mspec.get("tf") or ha) else None
         if ind is None:
             from hexital import indicators as _i  # noqa
 
             full = dict(mspec)
-            ind = specs.build_indicator({**full, "fill": False, "ha": False, "life": None}, [], with_manager=True)
+            ind = specs.build_indicator({**full, "fill": False, "ha": ha, "life": None}, [], with_manager=True)
         if form == "settings":
             return ind.settings
         return ind
